@@ -24,6 +24,7 @@ wf_all = partial(e2.rule_wellfounded, programs=("main", "nonhermitian"))
 tv_shipped = partial(e9.rule_translation, which=("main", "nonhermitian"))
 diag_solver_real = partial(e7b.rule_diagonal_solver, complex_energies=False)  # Hermitian H_0: real energies
 start_data_shipped = partial(e9.rule_start_data, all_programs=False)
+memo_key_parsing = partial(e4.rule_memo_key, modules=("algorithm_parsing", "series"))
 memo_key_nof = partial(e4.rule_memo_key, modules=("number_ordered_form", "second_quantization"))  # C08 is about that arithmetic only
 
 # ideal DSL semantics tied to the code: shared by the algorithm-level properties
@@ -126,7 +127,7 @@ prop(
 prop(
     "C07", level="other", selftest=["block_diagonalization", "second_quantization", "number_ordered_form", "algorithms"],
     rules=[main_e1, wf_main, e12.rule_operator_mode, e7.rule_solve_scalar, e1b.rule_projection_pairs, e1b.rule_scope_flags,
-           e10.rule_operator_order, e10.rule_fermion_crossing, e10.rule_shift_table, e10.rule_linear_structure,
+           e10.rule_operator_order, e10.rule_fermion_crossing, e10.rule_shift_table, e10.rule_linear_structure, e10.rule_number_operator_power,
            e2c.rule_product_by_order, e2c.rule_cauchy_wiring, e2c.rule_adjoint_fill, tv_shipped, e9.rule_runtime_support, e9.rule_exec_scope, start_data_shipped,
            e11.rule_helpers, e4.rule_loop_carried_state, e4.rule_memo_key],
     explanation=(
@@ -151,7 +152,7 @@ prop(
 
 prop(
     "C08", level="other", selftest=["number_ordered_form"],
-    rules=[e10.rule_operator_order, e10.rule_fermion_crossing, e10.rule_shift_table, e10.rule_linear_structure,
+    rules=[e10.rule_operator_order, e10.rule_fermion_crossing, e10.rule_shift_table, e10.rule_linear_structure, e10.rule_number_operator_power,
            e4.rule_loop_carried_state, memo_key_nof],
     explanation=(
         "Necessary conditions of faithfulness decided from number_ordered_form.py: (i) the order in which __mul__ "
@@ -167,7 +168,9 @@ prop(
     "C09", level="translation_validation", selftest=["algorithm_parsing", "series"],
     rules=[e9.rule_translation, e9.rule_translation_corpus, e9.rule_runtime_support, wf_all, e2c.rule_adjoint_fill, e8.rule_implicit_wiring,
            e2c.rule_cauchy_wiring, e2c.rule_product_by_order,  # declared products and their Hermiticity shortcut
-           e9.rule_deletion_safe, e9.rule_exec_scope, e9.rule_start_data],
+           e9.rule_deletion_safe, e9.rule_exec_scope, e9.rule_start_data,
+           # the compiled form is a function of the definition: a memo of the compiler must be keyed by what it compiles
+           memo_key_parsing],
     explanation=(
         "The repository's own _parse_algorithm is queried (subprocess, tree under analysis) for the generated "
         "series_eval ASTs of `main`, `nonhermitian` and the documented example; each is interpreted abstractly per "
@@ -180,7 +183,7 @@ prop(
 )
 
 prop(
-    "C10", level="other", selftest=["series", "block_diagonalization", "algorithm_parsing"],
+    "C10", level="other", selftest=["series", "block_diagonalization", "algorithm_parsing", "linalg"],
     rules=[e4.rule_no_inplace_mutation, e4.rule_closure_state, e3.rule_memo_owner, e3.rule_typestate,
            e7b.rule_shared_eigenvalue_check, e4.rule_loop_carried_state, e4.rule_memo_key, e9.rule_deletion_safe],
     explanation=(
@@ -194,7 +197,7 @@ prop(
 
 prop(
     "C11", level="other", selftest=["series"],
-    rules=[e3.rule_typestate, e3.rule_memo_owner, e4.rule_closure_state, e4.rule_memo_key, e7b.rule_shared_eigenvalue_check, e3.rule_exceptions_propagate],
+    rules=[e3.rule_typestate, e3.rule_memo_owner, e4.rule_closure_state, e7b.rule_shared_eigenvalue_check, e3.rule_exceptions_propagate],
     explanation=(
         "Typestate of the in-flight marker on the control-flow graph (with exceptional edges) of the one function that "
         "owns it: from the store of PENDING every path to a normal or exceptional exit passes a store of the result or "
@@ -206,13 +209,14 @@ prop(
 prop(
     "C12", level="other", selftest=["series", "block_diagonalization"],
     rules=[e2b.rule_definition_time_lazy, e2b.rule_order_preserving_evals, e2c.rule_product_by_order, wf_all,
-           e3.rule_typestate, tv_shipped],
+           e3.rule_typestate, e3.rule_memo_owner, tv_shipped],
     explanation=(
         "Dependency cone decided structurally: definition-time code subscripts a BlockSeries only at the zeroth order; "
         "every hand-written eval closure loads other series at its own orders (or a guarded lower one); "
         "product_by_order enumerates exactly the box [0, n_k] per component with complementary orders and requests a "
         "factor only if both index tuples are present; the DSL recursions are well-founded; an element is evaluated "
-        "only when absent from the memo; generated code never deletes an input term."),
+        "only when absent from the memo, and the memo is the only way to a term: nobody outside BlockSeries.__getitem__ calls a series' "
+        "element function or aliases its memo (E3 T5/T5b); generated code never deletes an input term."),
 )
 
 prop(
@@ -232,7 +236,9 @@ prop(
 prop(
     "C14", level="other", selftest=["block_diagonalization"],
     rules=[e6.rule_projector_call_sites, e6.rule_subspaces_from_indices, e11.rule_helpers, e2b.rule_taylor, e2b.rule_order_preserving_evals, e2b.rule_key_normalisation,
-           e5.rule_total_callbacks, e2c.rule_adjoint_fill, e4.rule_value_preserving],
+           e5.rule_total_callbacks, e2c.rule_adjoint_fill, e4.rule_value_preserving,
+           # `dense, sparse or symbolic values`: the selection closures have one element-wise branch per value type
+           e1b.rule_projection_pairs],
     explanation=(
         "Narrow claim: operator_to_BlockSeries returns L_i† A R_j (projector families, argument order of every "
         "ComplementProjector construction, Hermitian fill), the Taylor recurrence of symbolic input is consistent "
